@@ -81,26 +81,31 @@ var fields = map[LT]map[string]fld{
 	},
 	"CancelMsg":     {"Auctioneer": {"%s.signer", "Acc"}, "AuctionId": {"(%s.aid : Int)", "Int"}},
 	"AddAllowedMsg": {"AuctionId": {"(%s.aid : Int)", "Int"}, "AllowedBidder": {"%s.ab", "AllowedArg"}},
-	"MatchState": {
+	"MState": {
 		"MatchPrice": {"%s.price", "Dec"}, "MatchedAmount": {"%s.total", "Int"}, "MatchedBids": {"%s.matched", "List Bid"},
-		"MatchResultByBidder": {"%s.byBidder", "Map Acc BidderRes"},
+		"MatchResultByBidder": {"%s.byBidder", "Map Acc BRes"},
 	},
-	"BidderRes": {"PayingAmount": {"%s.pay", "Int"}, "MatchedAmount": {"%s.matched", "Int"}},
+	"BRes": {"PayingAmount": {"%s.pay", "Int"}, "MatchedAmount": {"%s.matched", "Int"}},
+	"MInfoG": {"MatchedLen": {"%s.matchedLen", "Int"}, "MatchedPrice": {"%s.price", "Dec"}, "TotalMatchedAmount": {"%s.total", "Int"},
+		"AllocationMap": {"%s.alloc", "Map Acc Int"}, "ReservedMatchedMap": {"%s.reservedMatched", "Map Acc Int"}, "RefundMap": {"%s.refund", "Map Acc Int"}},
 }
 
 // setters: `x.F = e` on a local struct value.  %1 = the struct, %2 = the new value
 var setters = map[string]fld{
-	"Bid.Price":                      {"{ %1 with price := %2 }", "Dec"},
-	"Bid.Coin":                       {"{ %1 with denom := (%2).denom, amt := (%2).amt }", "Coin"},
-	"Bid.IsMatched":                  {"{ %1 with matched := %2 }", "Bool"},
-	"Auction.RemainingSellingCoin":   {"{ %1 with remaining := (%2).amt }", "Coin"},
-	"Auction.MatchedPrice":           {"{ %1 with matchedPrice := %2 }", "Dec"},
-	"AllowedArg.AuctionId":           {"{ %1 with recAuction := (%2).toNat }", "Int"},
-	"MatchState.MatchedAmount":       {"{ %1 with total := %2 }", "Int"},
-	"MatchState.MatchedBids":         {"{ %1 with matched := %2 }", "List Bid"},
-	"MatchState.MatchResultByBidder": {"{ %1 with byBidder := %2 }", "Map Acc BidderRes"},
-	"BidderRes.MatchedAmount":        {"{ %1 with matched := %2 }", "Int"},
-	"BidderRes.PayingAmount":         {"{ %1 with pay := %2 }", "Int"},
+	"Bid.Price":                    {"{ %1 with price := %2 }", "Dec"},
+	"Bid.Coin":                     {"{ %1 with denom := (%2).denom, amt := (%2).amt }", "Coin"},
+	"Bid.IsMatched":                {"{ %1 with matched := %2 }", "Bool"},
+	"Auction.RemainingSellingCoin": {"{ %1 with remaining := (%2).amt }", "Coin"},
+	"Auction.MatchedPrice":         {"{ %1 with matchedPrice := %2 }", "Dec"},
+	"AllowedArg.AuctionId":         {"{ %1 with recAuction := (%2).toNat }", "Int"},
+	"MState.MatchedAmount":         {"{ %1 with total := %2 }", "Int"},
+	"MState.MatchedBids":           {"{ %1 with matched := %2 }", "List Bid"},
+	"MState.MatchResultByBidder":   {"{ %1 with byBidder := %2 }", "Map Acc BRes"},
+	"BRes.MatchedAmount":           {"{ %1 with matched := %2 }", "Int"},
+	"BRes.PayingAmount":            {"{ %1 with pay := %2 }", "Int"},
+	"MInfoG.AllocationMap":         {"{ %1 with alloc := %2 }", "Map Acc Int"},
+	"MInfoG.TotalMatchedAmount":    {"{ %1 with total := %2 }", "Int"},
+	"MInfoG.MatchedLen":            {"{ %1 with matchedLen := %2 }", "Int"},
 }
 
 func cmp(op string) fnSpec {
@@ -223,7 +228,7 @@ var zeroValues = map[string]V{
 }
 
 var zeroByLean = map[LT]string{
-	"Int": "(0 : Int)", "Dec": "(0 : Dec)", "Bool": "false", "BidderRes": "(default : BidderRes)",
+	"Int": "(0 : Int)", "Dec": "(0 : Dec)", "Bool": "false", "BRes": "(default : BRes)", "MState": "(default : MState)",
 	"List Bid": "[]", "List Dec": "[]",
 }
 
@@ -237,10 +242,17 @@ var composites = map[string]compositeSpec{
 		"Type": "type := %s", "Price": "price := %s", "Coin": "denom := (%s).denom, amt := (%s).amt", "IsMatched": "matched := %s"}},
 	"VestingQueue": {T: "VQ", Fields: map[string]string{"AuctionId": "auction := (%s).toNat", "Auctioneer": "auctioneer := %s",
 		"PayingCoin": "denom := (%s).denom, amt := (%s).amt", "ReleaseTime": "release := %s", "Released": "released := %s"}},
-	"BidderMatchResult": {T: "BidderRes", Fields: map[string]string{"PayingAmount": "pay := %s", "MatchedAmount": "matched := %s"}},
+	"BidderMatchResult": {T: "BRes", Fields: map[string]string{"PayingAmount": "pay := %s", "MatchedAmount": "matched := %s"}},
+	"MatchResult": {T: "MState", Fields: map[string]string{"MatchPrice": "price := %s", "MatchedAmount": "total := %s",
+		"MatchedBids": "matched := %s", "MatchResultByBidder": "byBidder := %s"}},
+	"MatchingInfo": {T: "MInfoG", Fields: map[string]string{"MatchedPrice": "price := %s", "TotalMatchedAmount": "total := %s", "MatchedLen": "matchedLen := %s",
+		"AllocationMap": "alloc := %s", "ReservedMatchedMap": "reservedMatched := %s", "RefundMap": "refund := %s"}},
 }
 
 var ignoredCalls = map[string]bool{}
+
+// goTypeNames: Go type expressions (as rendered) -> Lean types, for map literals
+var goTypeNames = map[string]LT{"string": "Acc", "math.Int": "Int", "*BidderMatchResult": "BRes", "*types.BidderMatchResult": "BRes", "uint64": "Int", "bool": "Bool"}
 
 var mutatorNames = map[string]bool{"SetMatched": true, "SetReleased": true, "SetStatus": true, "SetEndTimes": true}
 
@@ -264,8 +276,12 @@ var renderers = map[LT]string{
 	"List VS": "GVal.sched %s", "MInfo": "GVal.minfo %s", "List AllowedArg": "GVal.allowed %s", "AllowedArg": "GVal.allowed1 %s",
 }
 
+// aliasSpec: a Go variable that is a POINTER obtained from / stored into a map entry
+// (`p, ok := base.Field[key.KeyField]; if !ok { p = &T{}; base.Field[…] = p }; p.F = …`):
+// every field write through the pointer is written back into the map entry.
 type aliasSpec struct {
-	Map      string // Go variable (or field path handled by setter) holding the map
+	Base     string // Go variable holding the struct with the map field
+	Field    string // the map field (Go name)
 	Key      string // Go variable whose field is the key
 	KeyField string // e.g. ".bidder"
 }
